@@ -34,6 +34,8 @@ def c01(tier, seed):
             for s in seeds(seed, nseed):
                 shards.append(["-family", "kv", "-mode", mode, "-rw", rw, "-seed", str(s),
                                "-hist", str(hist), "-steps", str(steps)])
+    # large segments and block-sized values (zero runs, 0xFF runs), with backups, merges and reopens
+    shards += fam_shards([("bigval", ["-mode", "keyonly"])], seed + 2, 1 if tier == "quick" else 6, 2, 15 if tier == "quick" else 50)
     # the sleep-across-expiry scenario: reads in the very second in which now == timestamp + TTL
     shards += [["-family", "ttl", "-mode", m, "-seed", str(seed), "-hist", "1"] for m in ("keyval", "keyonly")]
     # component check of bptree.go on its own: ~110 keys, several levels of splits
@@ -310,7 +312,8 @@ def c16(tier, seed):
         merge_mc(res, "Merge+DelayedRewrite", consts={"Sw": '{"DelayedRewrite"}'}, inv=["MergeCrashSafe"], expect="MergeCrashSafe")),
         fams=
                       [("crashmergekv", ["-mode", "keyval", "-rw", "fileio"]), ("crashmergekv", ["-mode", "keyonly", "-rw", "mmap"]),
-                       ("crashmergekv", ["-mode", "keyonly", "-rw", "fileio"]), ("crashmergeds", []), ("crashmerge", [])],
+                       ("crashmergekv", ["-mode", "keyonly", "-rw", "fileio"]), ("crashmergeds", []), ("crashmerge", []),
+                       ("crashmergemany", ["-mode", "keyval", "-hist", "1", "-steps", "40"])],
                       what="after a crash inside Merge the reopened database differs from the contents before Merge (or Open failed)",
                       desc="workloads with Merge calls; a crash at every file mutation inside Merge (rewrites, creations, removals; torn writes)")
     return res.finish()
@@ -551,6 +554,9 @@ def c18(tier, seed):
     fams = [("concbackup", ["-mode", "keyval", "-rw", "fileio"]), ("concbackup", ["-mode", "keyonly", "-rw", "mmap"]),
             ("concbackup", ["-mode", "keyval", "-rw", "mmap"]), ("concbackup", ["-mode", "sparse"])]
     shards = conc_shards(fams, seed, 1 if q else 12, 2 if q else 4, 30 if q else 45)
+    # quiescent backups of databases with 32-64 KiB segments and block-sized values (zero runs, 0xFF runs)
+    for mode in ("keyval", "keyonly"):
+        shards += fam_shards([("bigval", ["-mode", mode])], seed, 1 if q else 8, 2, 20 if q else 50)
     rs = core.drive_and_validate(res, shards, core.dev_set(), "a backup directory did not open, or shows something else than the state committed when its read transaction started",
                                  "a goroutine calls Backup(dir) in a loop while 3-8 goroutines write and read; every copy is opened with the same options and fully observed")
     res.cov["samples"] = [dict(e, o="...") for e in core.sample_events(rs[0]["trace"], 4, ops={"backup"})]
